@@ -83,6 +83,58 @@ func VerifH_Algebra1024() {
 	symx.Reach("end")
 }
 
+// C08/H1b: the results of the set operations are sets of their own: changing a result leaves the operands
+// as they were and vice versa - also when an operand is the empty set, the full set, or the receiver itself.
+func VerifH_AlgebraIndependent() {
+	mk := func(kind int) Bit1024 {
+		x := NewBit1024()
+		switch kind {
+		case 1:
+			x.SetI32(3)
+			x.SetI32(700)
+		case 2:
+			for k := 0; k < L16; k++ {
+				x[k] = ^Bit64(0)
+			}
+		case 3:
+			x.SetI32(int32(symx.Concrete(symx.Int("member"), 0, 3) * 341)) // 0, 341, 682, 1023
+		}
+		return x
+	}
+	b := mk(symx.Concrete(symx.Int("bKind"), 0, 3))
+	c := mk(symx.Concrete(symx.Int("cKind"), 0, 3))
+	j := []int{0, 3, 64, 700, 1023}[symx.Concrete(symx.Int("probe"), 0, 4)]
+	hadB, hadC := verifHas(b, j), verifHas(c, j)
+	var r Bit1024
+	switch symx.Concrete(symx.Int("resultOf"), 0, 4) {
+	case 0:
+		r = b.Or(c)
+	case 1:
+		r = b.And(c)
+	case 2:
+		r = b.Reverse()
+	case 3:
+		r = b.OrThenReverse(c)
+	case 4:
+		r = b.Or(b)
+	}
+	hadR := verifHas(r, j)
+	if hadR {
+		r.UnsetI32(int32(j))
+	} else {
+		r.SetI32(int32(j))
+	}
+	symx.Assert(verifHas(r, j) == !hadR, "setting or clearing an index changes its membership")
+	symx.Assert(verifHas(b, j) == hadB && verifHas(c, j) == hadC, "changing the result of an operation does not change its operands")
+	if hadB {
+		b.UnsetI32(int32(j))
+	} else {
+		b.SetI32(int32(j))
+	}
+	symx.Assert(verifHas(r, j) == !hadR, "changing an operand afterwards does not change the result")
+	symx.Reach("end")
+}
+
 // Len/NLen: Bit64.Len branches on Full per word (2^16 paths for 16 free words), so three words at
 // parameterised positions are symbolic and the others are 0 or all ones according to a pattern parameter.
 func VerifH_Len1024() {
